@@ -58,9 +58,12 @@ def fmt_utc(ns):
 
 def gen_case(rng):
     argv, dec, colour, tz_env = c13.gen_options(rng)
-    if colour == "always" and rng.random() < 0.6:
+    if colour in ("auto", "default") or (colour == "always" and rng.random() < 0.6):
+        # (colour is C13's business; here it would only land most cases in known finding F-C19a)
+        if argv[:1] == ["--color"]:
+            argv = argv[2:]
         colour = "never"
-        argv[1] = "never"
+        argv = ["--color", "never"] + argv
     n = rng.choice((1, 2, 3, 4))
     bsz = rng.choice((256, 4096, 65536))
     srcs = merge.gen_sources(rng, n, bsz, max_msgs=rng.choice((2, 6, 15)), containers=("plain", "plain", "gz", "xz"),
@@ -197,11 +200,13 @@ def run_other_kinds_case(seed, i, tier):
     kinds = rng.sample(("journal", "evtx", "utmp", "text"), rng.randint(1, 3))
     files = []
     expect = {}      # path -> number of messages
+    times = {}       # path -> the instants of its messages (ns), in the order the file's messages are printed
     for k in kinds:
         if k == "journal":
             data, ents, _ = c09.gen_journal(rng)
             files.append(core.FileSpec("g.journal", data, 1600000000))
             expect["g.journal"] = len(ents)
+            times["g.journal"] = [e["rt"] * 1000 for e in ents]
         elif k == "evtx":
             if rng.random() < 0.5:
                 data, recs, _, _ = c10.restamped(rng)
@@ -209,6 +214,7 @@ def run_other_kinds_case(seed, i, tier):
                 data, recs = fixtures.load("pnp"), c10.dump("pnp")
             files.append(core.FileSpec("e.evtx", data, 1600000000))
             expect["e.evtx"] = len(recs)
+            times["e.evtx"] = [t for (t, _) in sorted((t, k) for (k, _, t) in recs)]
         elif k == "utmp":
             name = rng.choice(sorted(layouts.LAYOUTS))
             n = rng.randint(1, 10)
@@ -216,14 +222,36 @@ def run_other_kinds_case(seed, i, tier):
             fname = layouts.LAYOUTS[name][6]
             files.append(core.FileSpec(fname, raw, 1600000000))
             expect[fname] = len(recs)
+            times[fname] = sorted(r["sec"] * 1_000_000_000 + r["usec"] * 1000 for r in recs)
         else:
             p = world.TextLogParams(n_msgs=rng.randint(1, 8), src_letter=b"T", cont_p=0.3, t0=1678938870_000_000_000)
             content, msgs, _ = world.gen_text_log(rng, p)
             files.append(core.FileSpec("t.log", content, 1600000000))
             expect["t.log"] = len(msgs)
+            times["t.log"] = [m.instant for m in msgs]
+    # a datetime window in part of the cases: the per-file counts and the per-file first / last printed datetimes are then
+    # those of the selection (no window when a journal's receive times step backwards, see C09)
+    a = b = None
+    all_ts = sorted(set(t for ts_ in times.values() for t in ts_))
+    jmono = all(ts_ == sorted(ts_) for (p_, ts_) in times.items() if p_ == "g.journal")
+    if all_ts and jmono and rng.random() < 0.45:
+        a = c03.place(rng, all_ts) if rng.random() < 0.7 else None
+        b = c03.place(rng, all_ts) if (rng.random() < 0.7 or a is None) else None
+        if a is not None and b is not None and a > b:
+            a, b = b, a
+        if a is not None:
+            a -= a % 1000
+            opts += ["-a", c03.fmt_bound(rng, a)]
+        if b is not None:
+            b -= b % 1000
+            opts += ["-b", c03.fmt_bound(rng, b)]
+    sel = {p_: [t for t in ts_ if (a is None or t >= a) and (b is None or t <= b)] for (p_, ts_) in times.items()}
+    expect = {p_: len(v_) for (p_, v_) in sel.items()}
     rng.shuffle(files)
     argv = opts + [f.path for f in files]
     cr = CaseResult()
+    if a is not None or b is not None:
+        cr.probes["other_kinds_with_window"] += 1
     prng = core.rng_for(seed, PROP, i, "plan")
     plan = core.random_plan(prng, len(files), budget=6_000_000)
     plan.hashseed = rng.getrandbits(32)
@@ -276,6 +304,16 @@ def run_other_kinds_case(seed, i, tier):
                         v.append(("per_file_count_differs", "%s: summary says %d messages printed, the file holds %d" % (path, cnt, want)))
                 elif want:
                     v.append(("per_file_count_missing", "%s: no printed-message count in its summary section: %r" % (path, d)))
+                # the first / last printed datetime of the file, where its section reports them
+                chosen = sel.get(path)
+                # (only where the file's printed messages are in time order: for a file whose stamps step backwards the
+                # statement does not say whether "first" means first printed or earliest)
+                if chosen and chosen == sorted(chosen) and "datetime first" in d and "datetime last" in d:
+                    got_f, got_l = utc_paren(d["datetime first"]), utc_paren(d["datetime last"])
+                    want_f, want_l = fmt_utc(chosen[0]), fmt_utc(chosen[-1])
+                    if (got_f, got_l) != (want_f, want_l):
+                        v.append(("per_file_printed_datetimes_differ", "%s: summary says first / last printed %s / %s, what was printed of it begins / ends at %s / %s" % (
+                            path, got_f, got_l, want_f, want_l)))
             sepb = decor.unescape_separator(sep)
             if pb is not None and fsum + total_msgs * len(sepb) != pb and not v:
                 # a supplied final newline belongs to no file either
